@@ -96,6 +96,19 @@ def unit(job, variant, pi, seed, length, fork_every):
             continue
         playlogs = [pl for log in eng.operation_logs() for pl in log.playlogs]
         ckpt = playlogs[-1].checkpoint
+        # the views of the RECORDED state (engine.get_viewer(playlog), the web API's path for every play log) are
+        # defined and show what the live views show at this moment
+        try:
+            rec_viewer = eng.get_viewer(playlogs[-1])
+            for vn in complib.VIEW_NAMES:
+                vd = lambda x: [vd(y) for y in x] if isinstance(x, (list, tuple)) else (x.model_dump() if hasattr(x, "model_dump") else x)  # noqa: E731
+                if vd(rec_viewer(vn)) != vd(views[vn]):
+                    fail("recorded-state-shows-another-view-than-the-live-state", view=vn)
+                    break
+            out["recorded_views"] = out.get("recorded_views", 0) + 1
+        except Exception as e:  # noqa: BLE001
+            fail("views-of-the-recorded-state-raise", error=f"{type(e).__name__}: {str(e)[:200]}")
+            break
         for v in views["validity"]:
             if not v.valid:
                 continue
@@ -203,7 +216,7 @@ def main(ck: Check):
     rng = ck.rng
     work = [(job, v, pi, ck.seed, rng.randint(*length), fork_every) for job in JOBS for v in variants for pi in range(plans_per)]
     tot = {"states": 0, "forks": 0, "valid_listed": 0, "foreign_rejects": 0, "skills": 0, "keydown_running_states": 0,
-           "boundary_states": 0}
+           "boundary_states": 0, "recorded_views": 0}
     samples, reqs, expect = [], [], []
     mstats: dict = {}
     for args, out in pmap(unit, work, ck.budget_s * 0.7):
@@ -213,7 +226,7 @@ def main(ck: Check):
                 raise TimeoutError(f"only {out['done']}/{out['total']} units finished within the budget")
             continue
         for k in tot:
-            tot[k] += out[k]
+            tot[k] += out.get(k, 0)
         for f in out["failing"]:
             ck.add_failing(f)
         if len(samples) < 3:
